@@ -132,6 +132,16 @@ def run(res, tier, only_case=None):
             continue
         res.nontrivial.add((vlib.hashlib.sha256(base).hexdigest()[:10], line, bool(pins_line)))
         res.count(kind + (":accepted" if i.startswith("OK") else ":rejected"))
+        if (i.startswith("OK") or i.startswith("RETRY-OPENED")) and kind in ("insert", "delete", "replay") and line[:2] in ("i ", "x "):
+            # an insertion of the very byte that it displaces (or a deletion inside a run) at the end of the header leaves
+            # the header region byte-identical: that is the unchanged file with a different data section, not a mutant
+            bl = zckfmt.parse_lead(base)
+            he = bl["lead"] + bl["hlen"] if bl else 0
+            tk = line.split()
+            g = base[:int(tk[1])] + bytes([int(tk[2])]) + base[int(tk[1]):] if tk[0] == "i" else base[:int(tk[1])] + base[int(tk[1]) + 1:]
+            if he and g[:he] == base[:he]:
+                res.count("identical-header-region")
+                continue
         if i.startswith("OK") or i.startswith("RETRY-OPENED"):
             magic_switch = kind == "subst" and pos < 5 and (base[:pos] + bytes([v]) + base[pos + 1:5]) in (b"\0ZCK1", b"\0ZHR1")
             if not magic_switch:
